@@ -243,6 +243,35 @@ func installCommon(c *Ctx) {
 	in["(*sync.RWMutex).Unlock"] = in["(*sync.Mutex).Unlock"]
 	in["(*sync.RWMutex).RLock"] = in["(*sync.Mutex).Lock"]
 	in["(*sync.RWMutex).RUnlock"] = in["(*sync.Mutex).Unlock"]
+	// sync.Map: a plain engine map per instance (single-threaded use; with
+	// logical threads every operation is a tracked shared access)
+	smap := func(c *Ctx, recv Value) *Map {
+		p := recv.(*Ptr)
+		if c.syncMaps == nil {
+			c.syncMaps = map[*Value]*Map{}
+		}
+		m := c.syncMaps[p.slot]
+		if m == nil {
+			m = &Map{}
+			c.syncMaps[p.slot] = m
+		}
+		return m
+	}
+	in["(*sync.Map).Load"] = func(c *Ctx, a []Value) Value {
+		m := smap(c, a[0])
+		c.visible(m, false, "sync.Map")
+		if len(m.keys) == 0 {
+			return Tuple{Iface{}, Bool(false)}
+		}
+		v, ok := c.mapLookup(m, a[1], types.NewInterfaceType(nil, nil))
+		return Tuple{v, ok}
+	}
+	in["(*sync.Map).Store"] = func(c *Ctx, a []Value) Value {
+		m := smap(c, a[0])
+		c.visible(m, true, "sync.Map")
+		c.mapUpdate(m, a[1], a[2])
+		return nil
+	}
 	in["github.com/pentops/j5/internal/bcl/errpos.AddSource"] = func(c *Ctx, a []Value) Value { return a[0] }
 }
 
